@@ -184,6 +184,30 @@ func c06HistScenarios(tier string) []*h.Scenario {
 		out = append(out, s)
 	}
 	{
+		// an idle group whose taint writes fail at every position
+		g := StdGroup("g1")
+		g.Opts.MinNodes = 2
+		g.Opts.MaxNodes = 8
+		g.Opts.FastNodeRemovalRate, g.Opts.SlowNodeRemovalRate = 3, 1
+		s := &h.Scenario{Name: "c06.taint-faults", Groups: []h.GroupSpec{g}, Slots: 2, Quantum: Q, MaxEventsPerSlot: 1,
+			FaultOps: map[string]bool{sim.OpK8sGet: true, sim.OpK8sUpdate: true},
+			Init: func(hh *h.Hist) {
+				a := InitASGs(hh)[0]
+				for i := 0; i < 6; i++ {
+					hh.W.AddNode(a, sim.NodeOpt{Age: time.Duration(20+i) * Q})
+				}
+			},
+			Events: func(hh *h.Hist, slot int) []h.Event {
+				var ev []h.Event
+				for _, n := range groupNodes(hh, g, 6) {
+					ev = append(ev, evRejectNode(n.Name))
+				}
+				return ev
+			},
+		}
+		out = append(out, s)
+	}
+	{
 		g := StdGroup("g1")
 		g.Opts.MinNodes, g.Opts.MaxNodes = 0, 0
 		g.ASG.Min, g.ASG.Max = 1, 8
@@ -215,7 +239,18 @@ func init() {
 			"non-trivial = unlocked in-bounds scans; distinct = (thresholds, rates, class, edge, |U|,|T|, min, observed taints/untaints/requests)",
 		Grid:       c06Grid,
 		ReplayCase: replayGrid(c06Build, c06Monitors),
-		Scenarios:  func(tier string) []*h.Scenario { return histScenarios(tier, c06HistScenarios, C01Scenarios, C02Scenarios) },
+		Scenarios: func(tier string) []*h.Scenario {
+			out := c06HistScenarios(tier)
+			// the borrowed C01 / C02 worlds run one deviation shallower than C06's own worlds
+			for _, s := range histScenarios(tier, C01Scenarios, C02Scenarios) {
+				s.BoundCap = 1
+				if tier == "thorough" {
+					s.BoundCap = 2
+				}
+				out = append(out, s)
+			}
+			return out
+		},
 		Monitors:   c06Monitors,
 		Bound: func(tier string) int {
 			if tier == "thorough" {
